@@ -27,7 +27,7 @@ from ..engine import rec as _rec, emit as _emit, checked  # noqa: E402
 # ------------------------------------------------------------------ search loop
 
 
-@rule("SEARCH-COVER", ["C01", "C02", "C08", "C12", "C13", "C20", "C09", "C10", "C11"], floor=8)
+@rule("SEARCH-COVER", ["C01", "C02", "C08", "C12", "C13", "C20", "C09", "C10", "C11", "C16"], floor=8)
 def search_cover(ctx):
     """ReMatcher::matches: each of the three scan loops tries match_at at every position of an ascending
     Range that starts at the given start and ends at len+1 (no shortcut), len+1-prefix.len() (prefix) or len
@@ -170,7 +170,7 @@ def line_seek(ctx):
 # ------------------------------------------------------------------ match_at
 
 
-@rule("MATCH-AT", ["C02", "C01", "C19", "C18"], floor=5)
+@rule("MATCH-AT", ["C02", "C01", "C19", "C18", "C03", "C04"], floor=5)
 def match_at(ctx):
     """match_at(i): paren count := 1, start of group 0 := i, back-reference arrays re-allocated with max_parens
     entries when the program has back-references, history reset; the first result of the top-level iterator at i
@@ -848,7 +848,8 @@ def repeat_iter(ctx):
             if p.end != "return":
                 continue
             if r == "Option::None":
-                _rec(d, "greedy|none-when-empty", any(g == "eq(0, len(a1.iterators))" for g in gs), "GreedyRepeatIterator reports exhaustion while iterators remain (guards %s)" % gs[-2:], loc)
+                # the stack is known to be empty: by its length, or because its top does not exist
+                _rec(d, "greedy|none-when-empty", any(g in ("eq(0, len(a1.iterators))", "variant(last_mut(a1.iterators))=None", "variant(last(a1.iterators))=None", "variant(Vec::pop(a1.iterators))=None") for g in gs), "GreedyRepeatIterator reports exhaustion while iterators remain (guards %s)" % gs[-2:], loc)
             else:
                 _rec(d, "greedy|yield-top-position", r in ("Option::copied(last(a1.positions))", "last(a1.positions)"), "the greedy repeat must yield the top of its position stack; found %s" % r[:80], loc)
         # a further iteration is started only while the stack is below its bound, from the position just reached
